@@ -667,13 +667,15 @@ def jobs(tier: str, seed: int):
         for order in ("C", "F"):
             add("reshape", old_nd=o, new_nd=n, order=order, maxlen=(3 if o + n >= 5 else 4) if not thorough else (4 if o + n >= 6 else 5))
     for o, n in [(2, 1), (1, 2), (2, 2)] + ([(3, 2), (2, 3)] if thorough else []):
-        add("reshape", old_nd=o, new_nd=n, order="C", maxlen=4, infer=True)
-        add("reshape", old_nd=o, new_nd=n, order="F", maxlen=4, infer=True)
+        add("reshape", old_nd=o, new_nd=n, order="C", maxlen=4 if thorough else 3, infer=True)
+        add("reshape", old_nd=o, new_nd=n, order="F", maxlen=4 if thorough else 3, infer=True)
     if thorough:
         pats = [("i", 5, 4), ("s", 6, 4), ("is", 5, 3), ("si", 5, 3), ("ss", 4, 3), ("se", 5, 3), ("ie", 5, 3), ("sis", 4, 2),
                 ("ii", 5, 1), ("sss", 3, 1), ("iss", 3, 2), ("ssi", 3, 2), ("sie", 4, 2), ("see", 4, 2), ("isis", 3, 1)]
     else:
-        pats = [("i", 5, 3), ("s", 5, 3), ("is", 4, 2), ("si", 4, 2), ("ss", 3, 1), ("se", 4, 2), ("ie", 4, 2)]
+        # (axes are processed independently by the code under test: the deep domains are on the
+        #  single-axis patterns, multi-axis patterns use small ones -- paths multiply)
+        pats = [("i", 5, 3), ("s", 5, 3), ("is", 3, 1), ("si", 3, 1), ("ss", 2, 1), ("se", 3, 2), ("ie", 4, 2)]
     for pat, ml, ms in pats:
         add("basic_index", kinds=pat, maxlen=ml, maxstep=ms)
     for nd, narr in [(1, 1), (1, 2), (2, 2), (2, 3), (0, 2)] + ([(3, 2), (2, 4)] if thorough else []):
@@ -693,7 +695,8 @@ def jobs(tier: str, seed: int):
             add("advanced_index", pattern=pat, shp_sel=sel, maxlen=4 if len(pat) < 3 else 3,
                 maxstep=2 if pat.count("s") < 2 else 1)
         else:
-            add("advanced_index", pattern=pat, shp_sel=sel, maxlen=3, maxstep=1 if "s" in pat else 2)
+            add("advanced_index", pattern=pat, shp_sel=sel, maxlen=2 if "s" in pat and len(pat) > 2 else 3,
+                maxstep=1 if "s" in pat else 2)
     for spec, nops in _EINSUMS if thorough else _EINSUMS[:12]:
         add("einsum", spec=spec, bcast=0, maxlen=3)
     for spec, b in [("ij,jk->ik", 1), ("ij,jk->ik", 2), ("ij,jk->ik", 8), ("ij,ij->ij", 1), ("ij,ij->ij", 6),
